@@ -890,7 +890,7 @@ def run(ctx):
     tick(ctx, "parse_exports", t0)
     # ---- 2. replay through the binary
     sel_chosen = sel_choose(ctx, sel_cases, len(sel_cases) if thorough else 2000)
-    rec_chosen = rec_choose(ctx, rec_cases, 12000 if thorough else 700)
+    rec_chosen = rec_choose(ctx, rec_cases, 9000 if thorough else 700)
     if ctx.replay:
         sel_chosen, rec_chosen = replay_filter(ctx, sel_cases, rec_cases)
     t0 = time.time()
